@@ -781,15 +781,11 @@ def tcp_dead_socket_case(how):
     tr.start()
     lost = []
 
-    class Proto:
-        transport = tr
-
-        @staticmethod
-        def conn_lost_callback():
-            lost.append(1)
-
+    from mysensors.transport import BaseMySensorsProtocol
+    proto = BaseMySensorsProtocol(None, lambda: lost.append(1))    # the real line protocol object
+    proto.transport = tr
     st = SyncTransport(None, lambda *x: None)
-    st.protocol = Proto()
+    st.protocol = proto
     st.can_log = False
     exc = None
     try:
